@@ -13,8 +13,10 @@ import traceback
 
 ROOT = os.path.dirname(os.path.dirname(os.path.abspath(__file__)))
 sys.path.insert(0, ROOT)
-if '/repo' not in sys.path:
-  sys.path.insert(0, '/repo')
+REPO = os.environ.get('VERIF_REPO', '/repo')   # the tree under analysis (seed tests point this at a scratch worktree)
+OUT = os.environ.get('VERIF_OUT', ROOT)        # where evidence/ and replays/ are written
+if REPO not in sys.path:
+  sys.path.insert(0, REPO)
 
 from sx import solve  # noqa: E402
 
@@ -133,8 +135,8 @@ class Check:
         if kf is not None:
           known_hits.append((key, kf))
           continue
-        os.makedirs(os.path.join(ROOT, 'replays'), exist_ok=True)
-        path = os.path.join(ROOT, 'replays', '%s-%s.json' % (self.pid, hashlib.md5(o.name.encode()).hexdigest()[:10]))
+        os.makedirs(os.path.join(OUT, 'replays'), exist_ok=True)
+        path = os.path.join(OUT, 'replays', '%s-%s.json' % (self.pid, hashlib.md5(o.name.encode()).hexdigest()[:10]))
         with open(path, 'w') as f:
           json.dump({'property': self.pid, 'obligation': o.name, 'finding_key': key, 'model': o.model, 'replay': info},
                     f, indent=1, default=str)
@@ -160,8 +162,8 @@ class Check:
             if kf is not None:
               known_hits.append((key, kf))
               continue
-            os.makedirs(os.path.join(ROOT, 'replays'), exist_ok=True)
-            path = os.path.join(ROOT, 'replays', '%s-%s.json' % (self.pid, hashlib.md5(o.name.encode()).hexdigest()[:10]))
+            os.makedirs(os.path.join(OUT, 'replays'), exist_ok=True)
+            path = os.path.join(OUT, 'replays', '%s-%s.json' % (self.pid, hashlib.md5(o.name.encode()).hexdigest()[:10]))
             with open(path, 'w') as f:
               json.dump({'property': self.pid, 'obligation': o.name, 'solver_status': o.status, 'replay': info,
                          'note': 'the solver left this obligation undecided; the violation was found by the concrete witness search on the real code'}, f, indent=1, default=str)
@@ -241,8 +243,8 @@ class Check:
     cov.update(self.extra)
     ev = {'property_id': self.pid, 'tier': self.tier, 'seed': self.seed, 'level': self.level, 'coverage': cov,
           'assumptions': self.assumptions, 'wall_s': round(time.time() - self.t0, 2), 'violations': nviol}
-    os.makedirs(os.path.join(ROOT, 'evidence'), exist_ok=True)
-    with open(os.path.join(ROOT, 'evidence', self.pid + '.json'), 'w') as f:
+    os.makedirs(os.path.join(OUT, 'evidence'), exist_ok=True)
+    with open(os.path.join(OUT, 'evidence', self.pid + '.json'), 'w') as f:
       json.dump(ev, f, indent=1, default=str)
     self.log('evidence: obligations=%d discharged=%d (trivial %d) twins=%d/%d queries=%d solver=%.1fs wall=%.1fs' % (
         cov['obligations'], cov['discharged'], cov['trivially_discharged'], cov['twins_sat'], cov['twins'],
